@@ -130,7 +130,9 @@ def mimebundle(draw):
     d = {}
     if draw(st.sampled_from(range(14))) == 0:
         return d            # an empty mime bundle is schema-valid
-    if draw(st.integers(0, 3)) > 0:
+    if LONG["enabled"] and draw(st.sampled_from(range(60))) == 0:
+        d["text/plain"] = draw(long_text(draw(st.sampled_from([9500, 10500]))))
+    elif draw(st.integers(0, 3)) > 0:
         d["text/plain"] = draw(st.one_of(text(3), st.sampled_from(REPRS)))
     r = draw(st.integers(0, 9))
     if r == 0:
@@ -162,10 +164,33 @@ MIXED_CASE = {"text/plain": "text/Plain", "text/html": "text/HTML", "image/png":
               "application/javascript": "Application/JavaScript"}
 
 
+LONG = {"enabled": False}
+
+
+def enable_long_texts(on=True):
+    """Thorough tiers also generate stream texts beyond the differ's 1000-character compare cutoff (and mime texts beyond 10000)."""
+    LONG["enabled"] = bool(on)
+
+
+@st.composite
+def long_text(draw, target):
+    lines = []
+    n = 0
+    i = 0
+    while n < target:
+        ln = "%s  # row %d\n" % (draw(st.sampled_from(CODE_LINES[:12])), i)
+        lines.append(ln)
+        n += len(ln)
+        i += 1
+    return "".join(lines)
+
+
 @st.composite
 def output(draw):
     k = draw(st.sampled_from(["stream", "stream", "error", "display_data", "execute_result", "execute_result"]))
     if k == "stream":
+        if LONG["enabled"] and draw(st.sampled_from(range(20))) == 0:
+            return {"output_type": "stream", "name": "stdout", "text": draw(long_text(draw(st.sampled_from([900, 1100, 1500]))))}
         return {"output_type": "stream", "name": draw(st.sampled_from(["stdout", "stdout", "stderr"])), "text": draw(text(4))}
     if k == "error":
         return {"output_type": "error", "ename": draw(st.sampled_from(["ValueError", "KeyError"])),
